@@ -100,15 +100,17 @@ Proof.
   - unfold render_weight. cbn. rewrite <- ?app_assoc. reflexivity.
 Qed.
 
-(* element of Accept-Charset / Accept-Encoding:  ( token / "*" ) [ weight ] *)
-Definition el_rx := Cat (Alt token (ch 42)) (opt weight).
+Section Hash.
+  (* element = item [ weight ], for an item syntax given by a regex and its reading *)
+  Variable item_rx : rx.
+  Variable item_ok : str -> Prop.
+  Hypothesis Hitem : forall w, matches item_rx w -> item_ok w.
+  Definition el_rx := Cat item_rx (opt weight).
 
-Lemma inv_el w : matches el_rx w -> exists e : el, el_ok token_ok e /\ w = render_el e.
+Lemma inv_el w : matches el_rx w -> exists e : el, el_ok item_ok e /\ w = render_el e.
 Proof.
   intros H. apply inv_cat in H as (it & wt & -> & Hit & Hwt).
-  assert (Htok : token_ok it).
-  { apply inv_alt in Hit as [Hit|Hit]; [apply inv_token, Hit|]. apply inv_ch in Hit as ->.
-    split; [discriminate|repeat constructor]. }
+  assert (Htok : item_ok it) by (apply Hitem, Hit).
   apply inv_opt in Hwt as [->|Hwt].
   - exists (it, None). split; [split; [exact Htok|exact I]|]. unfold render_el. cbn. reflexivity.
   - apply inv_weight in Hwt as (t & Ht & ->). exists (it, Some t). split; [split; assumption|reflexivity].
@@ -119,7 +121,7 @@ Qed.
 Definition all_ows_l (o : str) : Prop := Forall (fun c => is_ows c = true) o.
 Definition piece_ok (p : str) : Prop :=
   exists o, all_ows_l o /\
-    (p = o ++ [44] \/ exists o' (e : el), all_ows_l o' /\ el_ok token_ok e /\ p = o ++ 44 :: o' ++ render_el e).
+    (p = o ++ [44] \/ exists o' (e : el), all_ows_l o' /\ el_ok item_ok e /\ p = o ++ 44 :: o' ++ render_el e).
 Definition piece_rx := cats [OWS; ch 44; opt (Cat OWS el_rx)].
 
 Lemma inv_piece p : matches piece_rx p -> piece_ok p.
@@ -142,8 +144,8 @@ Lemma all_junk_app a b : all_junk a -> all_junk b -> all_junk (a ++ b).
 Proof. intros; apply Forall_app; split; assumption. Qed.
 
 (* pieces after a current element [e] whose junk so far is [j] *)
-Lemma build_after ps : forall (e : el) j, el_ok token_ok e -> all_junk j -> Forall piece_ok ps ->
-  exists els, els_ok token_ok els /\ body els = render_el e ++ j ++ concat ps.
+Lemma build_after ps : forall (e : el) j, el_ok item_ok e -> all_junk j -> Forall piece_ok ps ->
+  exists els, els_ok item_ok els /\ body els = render_el e ++ j ++ concat ps.
 Proof.
   induction ps as [|p ps IH]; intros e j He Hj Hps.
   - exists [(e, j)]. split; [cbn; split; [exact He|split; [exact Hj|split; [intros H; exfalso; apply H; reflexivity|exact I]]]|].
@@ -165,7 +167,7 @@ Qed.
 
 (* pieces when no element has been seen yet: only junk [j0] so far *)
 Lemma build_before ps : forall j0, all_junk j0 -> Forall piece_ok ps ->
-  exists j0' els, all_junk j0' /\ els_ok token_ok els /\ j0' ++ body els = j0 ++ concat ps.
+  exists j0' els, all_junk j0' /\ els_ok item_ok els /\ j0' ++ body els = j0 ++ concat ps.
 Proof.
   induction ps as [|p ps IH]; intros j0 Hj Hps.
   - exists j0, []. repeat split; auto.
@@ -187,35 +189,43 @@ Proof.
   eapply Forall_impl; [|exact Hps]. intros p Hp. apply inv_piece, Hp.
 Qed.
 
-(* 1#element (Accept-Charset) *)
-Theorem charset_is_render w : matches abnf_accept_charset w ->
-  exists j0 els, all_junk j0 /\ els_ok token_ok els /\ w = render j0 els.
-Proof.
-  unfold abnf_accept_charset, hash1. cbn [cats]. intros H.
-  apply inv_cat in H as (pre & r & -> & Hpre & H). apply inv_cat in H as (e & post & -> & He & Hpost).
-  apply inv_el in He as (e' & He' & ->). apply inv_pieces in Hpost as (ps & -> & Hps).
-  assert (Hj0 : all_junk pre).
-  { apply inv_star in Hpre as (cs & -> & Hcs). induction Hcs as [|x cs Hx _ IH]; [constructor|].
-    apply inv_cat in Hx as (c & o & -> & Hc & Ho). apply inv_ch in Hc as ->. apply inv_ows in Ho.
-    cbn [concat]. apply all_junk_app; [|exact IH]. constructor; [reflexivity|apply ows_junk, Ho]. }
-  destruct (build_after ps e' [] He' (Forall_nil _) Hps) as (els & Hels & Hb).
-  exists pre, els. repeat split; auto. unfold render. rewrite Hb. reflexivity.
-Qed.
 
-(* #element (Accept-Encoding) *)
-Theorem encoding_is_render w : matches abnf_accept_encoding w ->
-  exists j0 els, all_junk j0 /\ els_ok token_ok els /\ w = render j0 els.
+  (* 1#element *)
+  Theorem hash1_is_render w : matches (hash1 el_rx) w ->
+    exists j0 els, all_junk j0 /\ els_ok item_ok els /\ w = render j0 els.
+  Proof.
+    unfold hash1. cbn [cats]. intros H.
+    apply inv_cat in H as (pre & r & -> & Hpre & H). apply inv_cat in H as (e & post & -> & He & Hpost).
+    apply inv_el in He as (e' & He' & ->). apply inv_pieces in Hpost as (ps & -> & Hps).
+    assert (Hj0 : all_junk pre).
+    { apply inv_star in Hpre as (cs & -> & Hcs). induction Hcs as [|x cs Hx _ IH]; [constructor|].
+      apply inv_cat in Hx as (c & o & -> & Hc & Ho). apply inv_ch in Hc as ->. apply inv_ows in Ho.
+      cbn [concat]. apply all_junk_app; [|exact IH]. constructor; [reflexivity|apply ows_junk, Ho]. }
+    destruct (build_after ps e' [] He' (Forall_nil _) Hps) as (els & Hels & Hb).
+    exists pre, els. repeat split; auto. unfold render. rewrite Hb. reflexivity.
+  Qed.
+
+  (* #element *)
+  Theorem hash0_is_render w : matches (hash0 el_rx) w ->
+    exists j0 els, all_junk j0 /\ els_ok item_ok els /\ w = render j0 els.
+  Proof.
+    unfold hash0. intros H. apply inv_opt in H as [->|H].
+    - exists [], []. repeat split; constructor.
+    - apply inv_cat in H as (first & post & -> & Hf & Hpost). apply inv_pieces in Hpost as (ps & -> & Hps).
+      apply inv_alt in Hf as [Hf|Hf].
+      + apply inv_ch in Hf as ->.
+        destruct (build_before ps [44]) as (j0' & els & Hj' & Hels & Hb); [repeat constructor|exact Hps|].
+        exists j0', els. repeat split; auto.
+      + apply inv_el in Hf as (e' & He' & ->).
+        destruct (build_after ps e' [] He' (Forall_nil _) Hps) as (els & Hels & Hb).
+        exists [], els. repeat split; auto. constructor.
+  Qed.
+End Hash.
+
+Lemma inv_token_or_star w : matches (Alt token (ch 42)) w -> token_ok w.
 Proof.
-  unfold abnf_accept_encoding, hash0. intros H. apply inv_opt in H as [->|H].
-  - exists [], []. repeat split; constructor.
-  - apply inv_cat in H as (first & post & -> & Hf & Hpost). apply inv_pieces in Hpost as (ps & -> & Hps).
-    apply inv_alt in Hf as [Hf|Hf].
-    + apply inv_ch in Hf as ->.
-      destruct (build_before ps [44]) as (j0' & els & Hj' & Hels & Hb); [repeat constructor|exact Hps|].
-      exists j0', els. repeat split; auto.
-    + apply inv_el in Hf as (e' & He' & ->).
-      destruct (build_after ps e' [] He' (Forall_nil _) Hps) as (els & Hels & Hb).
-      exists [], els. repeat split; auto. constructor.
+  intros Hit. apply inv_alt in Hit as [Hit|Hit]; [apply inv_token, Hit|]. apply inv_ch in Hit as ->.
+  split; [discriminate|repeat constructor].
 Qed.
 
 (* ---------- unconditional element theorems ---------- *)
@@ -224,7 +234,7 @@ Theorem charset_accepted_elements w : no_LF w -> rmatch gen_accept_charset w = t
                  parse_accept_charset w = Some (map (fun ej => canon (fst ej)) els).
 Proof.
   intros Hlf Hv. pose proof (proj1 (accept_charset_eq w Hlf) Hv) as Hm.
-  destruct (charset_is_render w Hm) as (j0 & els & Hj & Hels & ->).
+  destruct (hash1_is_render _ _ inv_token_or_star w Hm) as (j0 & els & Hj & Hels & ->).
   exists j0, els. repeat split; auto. apply parse_charset_render; assumption.
 Qed.
 
@@ -233,6 +243,53 @@ Theorem encoding_accepted_elements w : no_LF w -> rmatch gen_accept_encoding w =
                  parse_accept_encoding w = Some (map (fun ej => canon (fst ej)) els).
 Proof.
   intros Hlf Hv. pose proof (proj1 (accept_encoding_eq w Hlf) Hv) as Hm.
-  destruct (encoding_is_render w Hm) as (j0 & els & Hj & Hels & ->).
+  destruct (hash0_is_render _ _ inv_token_or_star w Hm) as (j0 & els & Hj & Hels & ->).
   exists j0, els. repeat split; auto. apply parse_encoding_render; assumption.
+Qed.
+
+(* ---------- Accept-Language ---------- *)
+From Coq Require Import ZifyBool ZifyN.
+
+Lemma inv_one_to n r w (P : N -> Prop) :
+  (forall x, matches r x -> exists c, x = [c] /\ P c) ->
+  matches (one_to (S n) r) w -> (1 <= length w <= S n)%nat /\ Forall P w.
+Proof.
+  intros Hr H. unfold one_to in H. apply inv_cat in H as (w1 & w2 & -> & H1 & H2).
+  destruct (Hr _ H1) as (c & -> & Hc). replace (S n - 1)%nat with n in H2 by lia.
+  destruct (inv_upto n r w2 P Hr H2) as [Hl Hf]. split; [cbn; lia|constructor; assumption].
+Qed.
+
+Lemma inv_alpha x : matches ALPHA x -> exists c, x = [c] /\ is_alpha c = true.
+Proof.
+  intros H. apply inv_cls in H as (c & -> & Hc). exists c. split; [reflexivity|].
+  rewrite cmem_false in Hc. cbn [in_ranges] in Hc. unfold is_alpha. lia.
+Qed.
+Lemma inv_alnum x : matches alphanum x -> exists c, x = [c] /\ is_alnum c = true.
+Proof.
+  intros H. apply inv_cls in H as (c & -> & Hc). exists c. split; [reflexivity|].
+  rewrite cmem_false in Hc. cbn [in_ranges] in Hc. unfold is_alnum, is_alpha, is_digit. lia.
+Qed.
+
+Lemma inv_lang_range w : matches lang_range w -> lang_ok w.
+Proof.
+  intros H. apply inv_alt in H as [H|H]; [|left; apply inv_ch, H].
+  right. apply inv_cat in H as (a & rest & -> & Ha & Hrest).
+  apply (inv_one_to 7 ALPHA a (fun c => is_alpha c = true) inv_alpha) in Ha as [Hl Hf].
+  apply inv_star in Hrest as (ws & -> & Hws).
+  assert (G : exists subs, concat ws = subs_text subs /\ Forall subtag_ok subs).
+  { induction Hws as [|x ws Hx _ IH]; [exists []; split; [reflexivity|constructor]|].
+    destruct IH as (subs & E & Hs). apply inv_cat in Hx as (d & s & -> & Hd & Hs1). apply inv_ch in Hd as ->.
+    apply (inv_one_to 7 alphanum s (fun c => is_alnum c = true) inv_alnum) in Hs1 as [Hl1 Hf1].
+    exists (s :: subs). split; [|constructor; [split; assumption|exact Hs]].
+    cbn [concat]. rewrite E. unfold subs_text. cbn [flat_map app]. reflexivity. }
+  destruct G as (subs & -> & Hs). exists a, subs. repeat split; try assumption; lia.
+Qed.
+
+Theorem language_accepted_elements w : no_LF w -> rmatch gen_accept_language w = true ->
+  exists j0 els, all_junk j0 /\ els_ok lang_ok els /\ w = render j0 els /\
+                 parse_accept_language w = Some (map (fun ej => canon (fst ej)) els).
+Proof.
+  intros Hlf Hv. pose proof (proj1 (accept_language_eq w Hlf) Hv) as Hm.
+  destruct (hash1_is_render _ _ inv_lang_range w Hm) as (j0 & els & Hj & Hels & ->).
+  exists j0, els. repeat split; auto. apply parse_language_render; assumption.
 Qed.
